@@ -327,6 +327,7 @@ pub fn run_c05(args: &Args, tier: &str, seed: u64) -> Report {
             ("tokens", _) => 11,
             ("bytes12", "thorough") => 7,
             ("bytes12", _) => 41,
+            ("pairs", _) => 1,
             ("chains", "thorough") => 1,
             ("chains", _) => 3,
             ("mutations", "thorough") => 4,
